@@ -120,7 +120,7 @@ func (c *Ctx) streamFields(o Obj, hint string, id Sc) {
 	o.F["forever"] = scBool(app("rd!forever", id.T))
 	o.F["err"] = scInt(app("rd!err", id.T))
 	c.facts = append(c.facts, tGe(app("rd!end", id.T), "0"))
-	c.facts = append(c.facts, tGt(app("rd!err", id.T), "2"))
+	c.facts = append(c.facts, ioErr(app("rd!err", id.T)))
 	c.facts = append(c.facts, tForall([][2]string{{"i!b", SInt}}, tAnd(tLe("0", tSel(in, "i!b")), tLe(tSel(in, "i!b"), "255")), tSel(in, "i!b")))
 }
 
@@ -139,7 +139,7 @@ func (c *Ctx) scannerFields(o Obj, hint string, id Sc) {
 	o.F["fault"] = scBool(app("sc!fault", id.T))
 	o.F["err"] = scInt(app("sc!err", id.T))
 	c.facts = append(c.facts, tGe(app("sc!n", id.T), "0"))
-	c.facts = append(c.facts, tGt(app("sc!err", id.T), "2"))
+	c.facts = append(c.facts, ioErr(app("sc!err", id.T)))
 }
 
 func (c *Ctx) csvFields(o Obj, hint string, id Sc) {
@@ -159,7 +159,7 @@ func (c *Ctx) csvFields(o Obj, hint string, id Sc) {
 	o.F["fault"] = scBool(app("csv!fault", id.T))
 	o.F["err"] = scInt(app("csv!err", id.T))
 	c.facts = append(c.facts, tGe(app("csv!n", id.T), "0"))
-	c.facts = append(c.facts, tGt(app("csv!err", id.T), "2"))
+	c.facts = append(c.facts, ioErr(app("csv!err", id.T)))
 	c.facts = append(c.facts, tForall([][2]string{{"i!r", SInt}}, tGe(tSel(app("csv!reclen", id.T), "i!r"), "0")))
 	c.facts = append(c.facts, tForall([][2]string{{"i!r", SInt}}, tAnd(tNot(tEq(tSel(app("csv!recerr", id.T), "i!r"), "1")), tGe(tSel(app("csv!recerr", id.T), "i!r"), "0"))))
 }
@@ -238,6 +238,60 @@ func (c *Ctx) prefixFact(a, b Sl) string {
 // ---------------------------------------------------------------------------
 
 func init() {
+	parseExtern("strconv.ParseUint", "parses an unsigned integer (partial function of the text); error iff not parseable", "puintOK", "puint", SInt)
+	parseExtern("strconv.ParseFloat", "parses a float (partial function of the text); error iff not parseable; inverse of FormatFloat/%v", "pfloatOK", "pfloat", SReal)
+	reg("github.com/fluhus/gostuff/snm.At", "the elements of t at the (literal) indexes in at; panics if an index is out of range", func(x *Exec, n *ast.CallExpr, recv ast.Expr, st *State) (Val, *State) {
+		tv, st1 := x.eval(n.Args[0], st)
+		av, st2 := x.eval(n.Args[1], st1)
+		t, at := tv.(Sl), av.(Sl)
+		cnt, ok := isIntLit(at.Len)
+		if !ok || cnt > 16 {
+			panic(unsupported("snm.At with a non-literal index list"))
+		}
+		arr := x.c.zeroVal(t.Elem, []string{SInt})
+		for k := int64(0); k < cnt; k++ {
+			idx := vSelect(at.Arr, tAdd(at.Off, tInt(k))).(Sc).T
+			x.c.obligeAssume("idx", "", st2.pc, tAnd(tLe("0", idx), tLt(idx, t.Len)), n.Pos(), "snm.At index in range")
+			arr = vStore(arr, tInt(k), vSelect(t.Arr, tAdd(t.Off, idx)))
+		}
+		return Sl{arr, "0", tInt(cnt), tFalse, t.Elem}, st2
+	})
+	reg("encoding/hex.DecodeString", "decodes a hexadecimal string (partial function of the text)", func(x *Exec, n *ast.CallExpr, recv ast.Expr, st *State) (Val, *State) {
+		_, st1 := x.eval(n.Args[0], st)
+		c := x.c
+		e := c.fresh("hexerr", SInt)
+		c.assumeHere( tOr(tEq(e, "0"), localErr(e)))
+		return Tup{[]Val{c.freshVal("hexbytes", byteSeqType(), nil), scInt(e)}}, st1
+	})
+	reg("strings.ReplaceAll", "s with all non-overlapping instances of old replaced by new (opaque function of the three strings)", func(x *Exec, n *ast.CallExpr, recv ast.Expr, st *State) (Val, *State) {
+		a, st1 := x.eval(n.Args[0], st)
+		b, st2 := x.eval(n.Args[1], st1)
+		d, st3 := x.eval(n.Args[2], st2)
+		x.c.usesStr = true
+		x.c.declareFun("str!replaceAll", []string{SStr, SStr, SStr}, SStr)
+		return Sc{app("str!replaceAll", a.(Sc).T, b.(Sc).T, d.(Sc).T), SStr}, st3
+	})
+	reg("strings.ContainsAny", "whether any byte of the (ASCII) set occurs in s", func(x *Exec, n *ast.CallExpr, recv ast.Expr, st *State) (Val, *State) {
+		a, st1 := x.eval(n.Args[0], st)
+		cv, ok := x.constOf(n.Args[1])
+		if !ok {
+			panic(unsupported("strings.ContainsAny with non-constant set"))
+		}
+		set := constant.StringVal(cv)
+		s := a.(Sc).T
+		var alts []string
+		for i := 0; i < len(set); i++ {
+			alts = append(alts, tEq(app("sat", s, "i!c"), tInt(int64(set[i]))))
+		}
+		x.c.usesStr = true
+		return scBool(tExists([][2]string{{"i!c", SInt}}, tAnd(tLe("0", "i!c"), tLt("i!c", app("slen", s)), tOr(alts...)))), st1
+	})
+	reg("strings.Join", "concatenation of the elements with the separator between them", func(x *Exec, n *ast.CallExpr, recv ast.Expr, st *State) (Val, *State) {
+		_, st1 := x.eval(n.Args[0], st)
+		_, st2 := x.eval(n.Args[1], st1)
+		x.c.usesStr = true
+		return Sc{x.c.fresh("joined", SStr), SStr}, st2
+	})
 	reg("fmt.Sprintf", "result is some string (text abstracted; used for panic/error messages only)", func(x *Exec, n *ast.CallExpr, recv ast.Expr, st *State) (Val, *State) {
 		for _, a := range n.Args[1:] {
 			_, st = x.eval(a, st)
@@ -252,7 +306,7 @@ func init() {
 			}
 		}
 		e := x.c.fresh("errorf", SInt)
-		x.c.assume(tTrue, tGt(e, "2"))
+		x.c.assumeHere( localErr(e))
 		return scInt(e), st
 	})
 	reg("bytes.Compare", "lexicographic comparison of byte strings: result in {-1,0,1} equals lexcmp", func(x *Exec, n *ast.CallExpr, recv ast.Expr, st *State) (Val, *State) {
@@ -292,8 +346,8 @@ func init() {
 		c := x.c
 		s := c.fresh("built", SStr)
 		c.usesStr = true
-		c.assume(tTrue, tEq(app("slen", s), out.Len))
-		c.assume(tTrue, tForall([][2]string{{"i!v", SInt}},
+		c.assumeHere( tEq(app("slen", s), out.Len))
+		c.assumeHere( tForall([][2]string{{"i!v", SInt}},
 			tImp(tAnd(tLe("0", "i!v"), tLt("i!v", out.Len)), tEq(app("sat", s, "i!v"), tSel(out.Arr.(Sc).T, tAdd(out.Off, "i!v")))), app("sat", s, "i!v")))
 		return Sc{s, SStr}, st1
 	}
@@ -323,6 +377,34 @@ func init() {
 		o := ov.(Obj)
 		no := x.objAppend(o, x.strAsSeq(sv.(Sc).T))
 		return Tup{[]Val{scInt(app("slen", sv.(Sc).T)), scInt(errNil)}}, x.assignBack(recv, no, st2)
+	})
+	reg("(io.Writer).Write", "writes the bytes: on success appends them all and returns nil; a failing writer appends a prefix, sets failed and returns a non-nil error", func(x *Exec, n *ast.CallExpr, recv ast.Expr, st *State) (Val, *State) {
+		wv, st1 := x.eval(recv, st)
+		bv, st2 := x.eval(n.Args[0], st1)
+		c := x.c
+		w := wv.(Obj)
+		out := w.F["out"].(Sl)
+		data := bv.(Sl)
+		full := x.appendSeq(out, data, "out")
+		no := Obj{w.Kind, map[string]Val{}}
+		for k, v := range w.F {
+			no.F[k] = v
+		}
+		if w.Kind != "io.Writer" {
+			no.F["out"] = full
+			return Tup{[]Val{scInt(data.Len), scInt(errNil)}}, x.assignBack(recv, no, st2)
+		}
+		fail := c.fresh("wfail", SBool)
+		res := c.freshSeq("wout")
+		c.assumeDef(tAnd(tLe(out.Len, res.Len), tLe(res.Len, full.Len), tImp(tNot(fail), tEq(res.Len, full.Len)), tImp(fail, tLt(res.Len, full.Len))))
+		c.assumeDef(tForall([][2]string{{"i!w", SInt}}, tImp(tAnd(tLe("0", "i!w"), tLt("i!w", res.Len)),
+			tEq(tSel(res.Arr.(Sc).T, "i!w"), tSel(full.Arr.(Sc).T, tAdd(full.Off, "i!w")))), tSel(res.Arr.(Sc).T, "i!w")))
+		no.F["out"] = res
+		no.F["failed"] = scBool(tOr(w.F["failed"].(Sc).T, fail))
+		e := c.fresh("werr", SInt)
+		c.assumeDef(tAnd(tImp(fail, ioErr(e)), tImp(tNot(fail), tEq(e, "0"))))
+		cnt := c.fresh("wn", SInt)
+		return Tup{[]Val{scInt(cnt), scInt(e)}}, x.assignBack(recv, no, st2)
 	})
 	reg("bytes.NewBuffer", "a buffer whose content is the given bytes", func(x *Exec, n *ast.CallExpr, recv ast.Expr, st *State) (Val, *State) {
 		bv, st1 := x.eval(n.Args[0], st)
@@ -382,15 +464,15 @@ func init() {
 		d := dv.(Sc).T
 		// e: position of the first delimiter at or after pos, or end
 		e := c.fresh("rs.e", SInt)
-		c.assume(tTrue, tAnd(tLe(pos, e), tLe(e, end)))
-		c.assume(tTrue, tForall([][2]string{{"i!r", SInt}}, tImp(tAnd(tLe(pos, "i!r"), tLt("i!r", e)), tNot(tEq(tSel(in, "i!r"), d))), tSel(in, "i!r")))
-		c.assume(tTrue, tImp(tLt(e, end), tEq(tSel(in, e), d)))
+		c.assumeHere( tAnd(tLe(pos, e), tLe(e, end)))
+		c.assumeHere( tForall([][2]string{{"i!r", SInt}}, tImp(tAnd(tLe(pos, "i!r"), tLt("i!r", e)), tNot(tEq(tSel(in, "i!r"), d))), tSel(in, "i!r")))
+		c.assumeHere( tImp(tLt(e, end), tEq(tSel(in, e), d)))
 		found := tLt(e, end)
 		hi := c.define("rs.hi", SInt, tIte(found, tAdd(e, "1"), end))
 		str := c.fresh("rs.s", SStr)
 		c.usesStr = true
-		c.assume(tTrue, tEq(app("slen", str), tSub(hi, pos)))
-		c.assume(tTrue, tForall([][2]string{{"i!r", SInt}}, tImp(tAnd(tLe("0", "i!r"), tLt("i!r", tSub(hi, pos))), tEq(app("sat", str, "i!r"), tSel(in, tAdd(pos, "i!r")))), app("sat", str, "i!r")))
+		c.assumeHere( tEq(app("slen", str), tSub(hi, pos)))
+		c.assumeHere( tForall([][2]string{{"i!r", SInt}}, tImp(tAnd(tLe("0", "i!r"), tLt("i!r", tSub(hi, pos))), tEq(app("sat", str, "i!r"), tSel(in, tAdd(pos, "i!r")))), app("sat", str, "i!r")))
 		faultNow := tAnd(tNot(found), o.F["fault"].(Sc).T, tOr(tNot(o.F["fired"].(Sc).T), o.F["forever"].(Sc).T))
 		er := c.define("rs.err", SInt, tIte(found, errNil, tIte(faultNow, o.F["err"].(Sc).T, errEOF)))
 		no := Obj{o.Kind, map[string]Val{}}
@@ -419,7 +501,7 @@ func init() {
 		has := c.define("hassuf", SBool, tAnd(conds...))
 		cut := x.substr(s, "0", tSub(ln, tInt(int64(len(suf)))))
 		r := c.fresh("trimmed", SStr)
-		c.assume(tTrue, tAnd(tImp(has, tEq(r, cut)), tImp(tNot(has), tEq(r, s))))
+		c.assumeHere( tAnd(tImp(has, tEq(r, cut)), tImp(tNot(has), tEq(r, s))))
 		return Sc{r, SStr}, st1
 	})
 	reg("strings.Split", "splits s around each instance of the (constant, one-byte) separator: n+1 fields for n separators, none containing the separator, whose concatenation with separators is s", func(x *Exec, n *ast.CallExpr, recv ast.Expr, st *State) (Val, *State) {
@@ -432,7 +514,7 @@ func init() {
 		sepv, _ := x.eval(n.Args[1], st2)
 		s, sep := sv.(Sc).T, sepv.(Sc).T
 		cnt := app("split!n", s, sep)
-		c.assume(tTrue, tGe(cnt, "1"))
+		c.assumeHere( tGe(cnt, "1"))
 		return Sl{Sc{app("split!f", s, sep), arrSort(SInt, SStr)}, "0", cnt, tFalse, types.Typ[types.String]}, st2
 	})
 	reg("(*bufio.Reader).UnreadByte", "steps back one byte if the last operation was a successful ReadByte (else error, no effect)", func(x *Exec, n *ast.CallExpr, recv ast.Expr, st *State) (Val, *State) {
@@ -447,7 +529,7 @@ func init() {
 		no.F["pos"] = scInt(c.define("urpos", SInt, tIte(can, tSub(o.F["pos"].(Sc).T, "1"), o.F["pos"].(Sc).T)))
 		no.F["canUnread"] = scBool(tFalse)
 		e := c.fresh("urerr", SInt)
-		c.assume(tTrue, tAnd(tImp(can, tEq(e, "0")), tImp(tNot(can), tGt(e, "2"))))
+		c.assumeHere( tAnd(tImp(can, tEq(e, "0")), tImp(tNot(can), tGt(e, "2"))))
 		return scInt(e), x.assignBack(recv, no, st1)
 	})
 	reg("bufio.NewScanner", "line scanner (ScanLines) over the reader: its line sequence is a function of the reader", func(x *Exec, n *ast.CallExpr, recv ast.Expr, st *State) (Val, *State) {
@@ -534,19 +616,47 @@ func init() {
 		o := openedObj(c, p)
 		fails := app("aio!fails", p)
 		e := c.fresh("openerr", SInt)
-		c.assume(tTrue, tAnd(tImp(fails, tGt(e, "2")), tImp(tNot(fails), tEq(e, "0"))))
+		c.assumeHere( tAnd(tImp(fails, ioErr(e)), tImp(tNot(fails), tEq(e, "0"))))
 		return Tup{[]Val{o, scInt(e)}}, st1
 	})
 	reg("strconv.Atoi", "atoi: parses a decimal integer; error (non-nil, value 0) iff !atoiOK(s); inverse of Itoa", func(x *Exec, n *ast.CallExpr, recv ast.Expr, st *State) (Val, *State) {
 		sv, st1 := x.eval(n.Args[0], st)
 		c := x.c
 		c.used["atoi"] = true
+		c.used["atoiOK"] = true
 		s := sv.(Sc).T
 		ok := app("atoiOK", s)
 		e := c.fresh("atoierr", SInt)
-		c.assume(tTrue, tAnd(tImp(ok, tEq(e, "0")), tImp(tNot(ok), tGt(e, "2"))))
+		c.assumeHere( tAnd(tImp(ok, tEq(e, "0")), tImp(tNot(ok), localErr(e))))
 		v := c.define("atoiv", SInt, tIte(ok, app("atoi", s), "0"))
 		return Tup{[]Val{scInt(v), scInt(e)}}, st1
+	})
+}
+
+// Error values are integers: 0 nil, 1 io.EOF, 2 io.ErrUnexpectedEOF; errors
+// created locally (fmt.Errorf, strconv) are even numbers >= 4, I/O errors of
+// streams and writers are odd numbers >= 3 - so the two can never be confused.
+func localErr(e string) string { return tAnd(tGe(e, "4"), tEq(app("mod", e, "2"), "0")) }
+func ioErr(e string) string    { return tAnd(tGe(e, "3"), tEq(app("mod", e, "2"), "1")) }
+
+// parseExtern registers a string->value parser as an uninterpreted partial function.
+func parseExtern(name, doc, okFn, valFn, valSort string) {
+	reg(name, doc, func(x *Exec, n *ast.CallExpr, recv ast.Expr, st *State) (Val, *State) {
+		sv, st1 := x.eval(n.Args[0], st)
+		for _, a := range n.Args[1:] {
+			_, st1 = x.eval(a, st1)
+		}
+		c := x.c
+		c.usesStr = true
+		c.declareFun(okFn, []string{SStr}, SBool)
+		c.declareFun(valFn, []string{SStr}, valSort)
+		s := sv.(Sc).T
+		ok := app(okFn, s)
+		e := c.fresh("perr", SInt)
+		c.assumeHere( tAnd(tImp(ok, tEq(e, "0")), tImp(tNot(ok), localErr(e))))
+		v := c.fresh("pval", valSort)
+		c.assumeHere( tImp(ok, tEq(v, app(valFn, s))))
+		return Tup{[]Val{Sc{v, valSort}, scInt(e)}}, st1
 	})
 }
 
@@ -571,7 +681,7 @@ func (x *Exec) strAsSeq(s string) Sl {
 	arr := c.fresh("sbytes", arrSort(SInt, SInt))
 	c.strLits[key] = arr
 	c.usesStr = true
-	c.assume(tTrue, tForall([][2]string{{"i!v", SInt}}, tEq(tSel(arr, "i!v"), app("sat", s, "i!v")), tSel(arr, "i!v")))
+	c.assumeDef( tForall([][2]string{{"i!v", SInt}}, tEq(tSel(arr, "i!v"), app("sat", s, "i!v")), tSel(arr, "i!v")))
 	return Sl{Sc{arr, arrSort(SInt, SInt)}, "0", app("slen", s), tFalse, types.Typ[types.Uint8]}
 }
 
@@ -673,18 +783,18 @@ func (x *Exec) fprintf(n *ast.CallExpr, st *State, mode string) (Val, *State) {
 		// nondeterministic failure: a prefix of the rendering is appended
 		fail := c.fresh("wfail", SBool)
 		part := c.freshSeq("partial")
-		c.assume(tTrue, tAnd(tLe(out.Len, part.Len), tLe(part.Len, full.Len)))
-		c.assume(tTrue, tForall([][2]string{{"i!w", SInt}}, tImp(tAnd(tLe("0", "i!w"), tLt("i!w", part.Len)),
+		c.assumeDef( tAnd(tLe(out.Len, part.Len), tLe(part.Len, full.Len)))
+		c.assumeDef( tForall([][2]string{{"i!w", SInt}}, tImp(tAnd(tLe("0", "i!w"), tLt("i!w", part.Len)),
 			tEq(tSel(part.Arr.(Sc).T, "i!w"), tSel(full.Arr.(Sc).T, tAdd(full.Off, "i!w")))), tSel(part.Arr.(Sc).T, "i!w")))
 		res := c.freshSeq("wout")
-		c.assume(tTrue, tImp(fail, tAnd(tEq(res.Len, part.Len), tEq(res.Arr.(Sc).T, part.Arr.(Sc).T))))
-		c.assume(tTrue, tImp(tNot(fail), tAnd(tEq(res.Len, full.Len),
+		c.assumeDef( tImp(fail, tAnd(tEq(res.Len, part.Len), tEq(res.Arr.(Sc).T, part.Arr.(Sc).T))))
+		c.assumeDef( tImp(tNot(fail), tAnd(tEq(res.Len, full.Len),
 			tForall([][2]string{{"i!w", SInt}}, tImp(tAnd(tLe("0", "i!w"), tLt("i!w", full.Len)),
 				tEq(tSel(res.Arr.(Sc).T, "i!w"), tSel(full.Arr.(Sc).T, tAdd(full.Off, "i!w")))), tSel(res.Arr.(Sc).T, "i!w")))))
 		no.F["out"] = res
 		no.F["failed"] = scBool(tOr(w.F["failed"].(Sc).T, fail))
 		e := c.fresh("werr", SInt)
-		c.assume(tTrue, tAnd(tImp(fail, tGt(e, "2")), tImp(tNot(fail), tEq(e, "0"))))
+		c.assumeDef( tAnd(tImp(fail, ioErr(e)), tImp(tNot(fail), tEq(e, "0"))))
 		errT = e
 	} else {
 		no.F["out"] = full
